@@ -95,7 +95,9 @@ def _load(tu_rel, label, repo, extra, absolute):
     if os.path.exists(path):
         try:
             with open(path, 'rb') as f:
-                return pickle.load(f)
+                r = pickle.load(f)
+            os.utime(path, None)
+            return r
         except Exception:
             pass
     t0 = time.time()
@@ -106,10 +108,11 @@ def _load(tu_rel, label, repo, extra, absolute):
     os.replace(tmp, path)
     # drop older caches of the same TU (disk is limited)
     pre = 'ast_%s_' % os.path.basename(tu_rel)
-    for fn in os.listdir(CACHE):
-        if fn.startswith(pre) and fn.endswith('.pkl') and os.path.join(CACHE, fn) != path:
-            try: os.remove(os.path.join(CACHE, fn))
-            except OSError: pass
+    old = sorted((fn for fn in os.listdir(CACHE) if fn.startswith(pre) and fn.endswith('.pkl') and os.path.join(CACHE, fn) != path),
+                 key=lambda fn: os.path.getmtime(os.path.join(CACHE, fn)), reverse=True)
+    for fn in old[1:]:          # keep the newest other one: the unchanged tree's cache survives a run on a modified tree
+        try: os.remove(os.path.join(CACHE, fn))
+        except OSError: pass
     sys.stderr.write('[astload] %s: %d chunks in %.1fs\n' % (label, len(chunks), time.time() - t0))
     return chunks
 
